@@ -524,7 +524,7 @@ type peerResp struct {
 }
 
 func strPairs(m map[string]string) [][]string {
-	var out [][]string
+	out := [][]string{}
 	for k, v := range m {
 		out = append(out, []string{k, v})
 	}
@@ -635,6 +635,37 @@ func checkC04Peer(c c04Case) *ev.Failure {
 	}
 	if r.Payload != hex.EncodeToString(c.Payload) {
 		return ev.Failf("frame-parser-payload", "frame_parser payload differs")
+	}
+	// (d) the bare map (no _opid/_cid/_timeout added by an FContext; possibly empty) in the documented
+	// layout: both Python entry points decode it, and Python's encoder produces that layout.
+	bare := c.pairs()
+	bareExpect := strPairs(pairsToMap(bare))
+	bareWire := append(refEncodeHeaders(bare), c.Payload...)
+	for _, op := range []string{"read", "decode_from_frame"} {
+		r = peerResp{}
+		if err := peer3.call(map[string]string{"op": op, "hex": hex.EncodeToString(bareWire)}, &r); err != nil {
+			return ev.Failf("harness:peer", "%v", err)
+		}
+		if !r.Ok {
+			return ev.Failf("py-rejects-conforming-block", "python %s rejects a conforming header block of %d headers: %s", op, len(bare), r.Err)
+		}
+		if !pairsEq(r.Pairs, bareExpect) {
+			return ev.Failf("py-read-differs", "python %s: %v, the block holds %v", op, r.Pairs, bareExpect)
+		}
+		if op == "read" && r.Rest != hex.EncodeToString(c.Payload) {
+			return ev.Failf("py-read-payload", "python stream position after a %d-header block differs", len(bare))
+		}
+	}
+	r = peerResp{}
+	if err := peer3.call(map[string]interface{}{"op": "write", "pairs": bareExpect}, &r); err != nil {
+		return ev.Failf("harness:peer", "%v", err)
+	}
+	if !r.Ok {
+		return ev.Failf("py-write-error", "%s", r.Err)
+	}
+	pyBare, _ := hex.DecodeString(r.Hex)
+	if got, _, derr := refDecodeHeaders(pyBare); derr != nil || !pairsEq(strPairs(pairsToMap(got)), bareExpect) || len(pyBare) != len(refEncodeHeaders(bare)) {
+		return ev.Failf("py-write-differs", "python encodes %v as % x (%v)", bareExpect, pyBare, derr)
 	}
 	return nil
 }
